@@ -494,7 +494,10 @@ func execIng(sc *IngScenario, tr *kit.Trace, res *kit.Result) *ingRun {
 			x.strayWhy = append(x.strayWhy, why)
 		}
 	}
-	// after the load: the zones that can answer must answer again (no leaked slots, nothing wedged)
+	// after the load: the zones that can answer must answer again (no leaked slots, nothing wedged).
+	// Faults have stopped: the slow zone answers promptly now, so that a client with any
+	// configured budget can be served; only the dead zone stays dead.
+	g.Net.SetFaults([]simnet.Fault{{Kind: "drop", Addr: "192.0.9.4"}})
 	probeClient := netip.MustParseAddrPort("10.3.0.9:39998")
 	for pi, name := range []string{"host3.uniqzone.test.", "probe.slowzone.test."} {
 		rc := -1
@@ -791,6 +794,18 @@ func genIng(r *kit.RNG, flavour string) *IngScenario {
 		sc.MaxConcurrent = kit.Pick(r, []int{64, 256, 0})
 		for i := 0; i < nb; i++ {
 			sc.Ops = append(sc.Ops, IngOp{AtMs: bat + r.Intn(3), Client: r.Intn(nclients), Sock: r.Intn(2), Name: ingNameWild + r.Intn(200), ID: uint16(r.Range(1, 3))})
+		}
+	}
+	if flavour == "c11" && r.Chance(0.12) {
+		// impatient clients: the query budget (1 s) is shorter than the slow zone's answer time,
+		// so several distinct lookups in a row run out of time while their exchange with the
+		// zone's only server is in flight; the pool is wide enough for them to overlap
+		sc.TimeoutS = 1
+		sc.Ing.Workers, sc.Ing.Queue = r.Range(6, 12), 16
+		bat := r.Intn(at + 1)
+		base := r.Intn(150)
+		for i, nb := 0, r.Range(5, 12); i < nb; i++ {
+			sc.Ops = append(sc.Ops, IngOp{AtMs: bat + r.Intn(40), Client: r.Intn(nclients), Sock: r.Intn(2), Name: ingNameWild + base + i, ID: uint16(r.Range(1, 3))})
 		}
 	}
 	switch r.Intn(8) {
